@@ -1001,7 +1001,7 @@ def gen_case(rng, routine=None, bad_fraction=0.2, max_n=7):
         if routine == "graph_embed_deprecated":
             if rng.random() < 0.7:
                 opts["max_mean_photon"] = rng.choice([0.1, 0.5, 1.0, 2.5])
-            if rng.random() < 0.3:
+            if rng.random() < 0.3 and not (kind == "nearly-real" and n == 2):
                 opts["make_traceless"] = True
         elif routine == "takagi":
             if rng.random() < 0.25 and not bad:
@@ -1009,7 +1009,10 @@ def gen_case(rng, routine=None, bad_fraction=0.2, max_n=7):
         else:
             if rng.random() < 0.7:
                 opts["mean_photon_per_mode"] = rng.choice([0.01, 0.1, 0.5, 1.0, 2.5, 10.0])
-            if routine == "graph_embed" and rng.random() < 0.3:
+            # a traceless 2x2 real symmetric matrix [[a, b], [b, -a]] has two EQUAL singular values; a 1e-9 imaginary part splits
+            # them by ~1e-9 and the Takagi vectors become ill-conditioned (error ~ eps / gap ~ 1e-6): that near-degenerate weakness
+            # is recorded as a finding (corpus/C17-embed-traceless-2x2-nearly-real.json), the random stream does not re-draw it
+            if routine == "graph_embed" and rng.random() < 0.3 and not (kind == "nearly-real" and n == 2):
                 opts["make_traceless"] = True
     elif routine == "williamson":
         n = rng.randint(1, max(1, max_n // 2 + 1))
